@@ -52,14 +52,21 @@ def owner_prog(rng, ids, style):
                                    "si:%d" % ids.get(rng, range(8)), "so:%d" % ids.get(rng, range(8))]))
         return ops
     rounds = 2 if style == "restart" else 1
+    usr = rng.random() < 0.35          # this program also uses the owner's user-registered socket
     for rd in range(rounds):
+        if usr and rng.random() < 0.7:
+            ops.append(rng.choice(["ur", "ur", "up", "uu"]))
         if rng.random() < 0.5:
             sends(rng.choice([1, 2, 3]), [0, 1, 2, 3, 6, 7])          # queued before the thread is started
         if rng.random() < 0.25:
             ops.append("gs")
         ops.append("st")
         sends(rng.choice([0, 1, 2, 4]), [0, 1, 2, 2, 3, 3, 6, 7])
+        if usr:
+            ops += rng.choice([["ur"], ["up"], ["ur", "up"], ["up", "ur"], []])
         recvs(rng.choice([0, 1, 2, 3]))
+        if usr:
+            ops += rng.choice([["ue"], ["uu"], ["ue", "rn"], ["up", "rt", "ue"], []])
         if rng.random() < 0.15:
             ops.append("si:%d" % ids.get(rng, [4, 5]))                  # the internal thread leaves on its own
         end = rng.random()
@@ -99,7 +106,9 @@ def sender_prog(rng, ids):
     ops = []
     for _ in range(rng.choice([1, 2, 3, 4])):
         r = rng.random()
-        if r < 0.7:
+        if r < 0.12:
+            ops.append("up")                       # somebody makes the owner's user socket readable
+        elif r < 0.7:
             ops.append("si:%d" % ids.get(rng, [0, 1, 2, 3, 6, 7]))
         else:
             ops.append("so:%d" % ids.get(rng, [0, 1]))
@@ -149,6 +158,13 @@ DIRECTED = lifecycle_orders() + [
     (1, "0:jn;0:sd1;0:st;0:st;0:sd1;0:jn"),                           # API misuse: join when not running, double start
     (1, "0:st;0:rn"),                                                 # never answered: legitimate stranding
     (1, "0:rn;0:rp"),                                                 # blocking receive without sockets
+    # the owner's user-registered socket set and the B_IO_READY return path
+    (2, "0:st;0:ur;0:rn;1:up;0:ue;0:sd1"),                            # the blocked owner is woken by its user socket: B_IO_READY
+    (2, "0:ur;0:st;0:si:10;1:up;0:rn;0:rn;0:uu;0:sd1"),               # a reply and the user socket: the signal socket has precedence
+    (1, "0:st;0:ur;0:up;0:rt;0:rp;0:uu;0:rn;0:sd1"),                  # timed wait; unregistered again: the next wait ignores it
+    (1, "0:st;0:up;0:ur;0:rn;0:ue;0:up;0:rn;0:uu;0:uu;0:sd1"),        # ready before it is registered; double unregister
+    (2, "0:st;0:ur;0:si:11;0:rn;1:up;0:rn;0:rn;0:ue;0:sd1"),          # two replies, one ping: which wait reports what
+    (1, "0:ur;0:up;0:rn;0:st;0:rn;0:sd1"),                            # registered before the sockets exist
 ]
 
 # event-driven internal thread + another thread sending to it while the owner is inside StartInternalThread: with the
@@ -185,17 +201,18 @@ class CHECK(vlib.Check):
                 "StartInternalThread (allocation, thread creation, then HasItems() under the lock and the initial signal -- as repaired by 67f6b10; the as-found order is kept behind a flag for c11_evd_lost_wakeup_refuted), ShutdownInternalThread (NULL Message, optional join), "
                 "WaitForInternalThreadToExit, GetOwnerWakeupSocket, InternalThreadEntryAux/InternalThreadEntry (signal at start-up for "
                 "replies queued in advance, B_TIMED_OUT is recoverable, NULL or an error from MessageReceivedFromOwner ends the thread), "
-                "a subclass MessageReceivedFromOwner that sends an arbitrary list of replies and may ask to exit, and the event-driven "
+                "one user-registered socket in the owner's SOCKET_SET_READ (register/unregister, ready-for-read wakes the blocked owner, isFlagged refresh, B_IO_READY with the signal socket taking precedence), "
+                "a subclass MessageReceivedFromOwner that sends an arbitrary list of Messages -- replies, or further work for the internal thread itself -- and may ask to exit, and the event-driven "
                 "way to write InternalThreadEntry (select() on GetInternalThreadWakeupSocket() first, then poll "
                 "WaitForNextMessageFromOwner(ref, 0) until B_TIMED_OUT: the MessageTransceiverThread / AsyncDataIO pattern).  Not modelled: the "
-                "user-registered socket sets of WaitForNextMessageAux, ICallbackMechanism dispatch, thread priorities, allocation "
+                "WRITE/EXCEPTION socket sets and the internal thread's own socket sets, ICallbackMechanism dispatch, thread priorities, allocation "
                 "failure, the Qt/pthread/Win32 back ends.")
     premises = ["std::recursive_mutex / std::condition_variable / std::thread semantics: under the controlled scheduler blocking is simulated by the scheduler (mutex owners, WaitCondition counting semantics, join); the native primitives are premises (DESIGN.md 5.3)",
                 "AF_UNIX socket pair semantics (a byte sent is readable at once on the other end, recv absorbs up to the buffer size, a closed end makes the other end readable): the real sockets are used and queried by the harness, select() is replaced by the scheduler",
                 "one transition = one _queueLock critical section / one signal / one return: interleavings inside a critical section are not distinguished; unlocked reads of _messageSocketsAllocated, the socket references and _messages.HasItems() are taken to be atomic (the C++ data races on them are outside the model)",
                 "only the owner thread (thread 0) receives replies and calls Start/Shutdown/WaitForInternalThreadToExit, as Thread.h documents; one reader per queue",
                 "allocation never fails",
-                "liveness is proved in its safety form only (an enabled transition exists); fairness of the OS scheduler is not modelled"]
+                "liveness is proved in its safety form and in its can-reach form (a finite continuation to completion exists; the latter for reactions that send replies only); fairness of the OS scheduler is not modelled"]
     rule = ("each case = an owner program (start / sends / receives poll, blocking, timed / shutdown / join / restart) plus 0..3 sender "
             "threads + the signalling mechanism + a schedule (explicit decisions, then a seeded random or non-preemptive policy); the "
             "real muscle::Thread is run under the controlled scheduler and, per decision, the enabled set, signals, the full state "
